@@ -178,9 +178,22 @@ func renderResult(v ssa.Value, r *Reach, live map[*ssa.BasicBlock]bool, lits []L
 			}
 			if isNilConst(v) {
 				anyNil = true
-			} else {
-				allNil = false
+				return
 			}
+			// an error value whose nil-ness is fixed by the scenario
+			for _, l := range lits {
+				for _, ep := range errPats[l.A.Name] {
+					if ep(v) {
+						if l.Val {
+							anyNil = true
+						} else {
+							allNil = false
+						}
+						return
+					}
+				}
+			}
+			allNil = false
 		}
 		walk(v, 0)
 		switch {
@@ -218,8 +231,29 @@ func (c *Ctx) CheckTable(fn *ssa.Function, key string, atoms []Atom, spec func(a
 			}
 		}
 		want := spec(a)
-		got := strings.Join(row.Results, " / ")
-		if got != want {
+		norm := func(rs []string) []string {
+			// when an error is returned the boolean result is immaterial to every caller in this code base
+			var out []string
+			seen := map[string]bool{}
+			for _, r := range rs {
+				if strings.HasSuffix(r, ",err") {
+					r = "F,err"
+				}
+				if !seen[r] {
+					seen[r] = true
+					out = append(out, r)
+				}
+			}
+			return out
+		}
+		got := strings.Join(norm(row.Results), " / ")
+		okRow := false
+		for _, alt := range strings.Split(want, "|") {
+			if got == alt {
+				okRow = true
+			}
+		}
+		if !okRow {
 			bad++
 			if witness == "" {
 				witness = fmt.Sprintf("under %s the function returns (%s), specification says (%s)", strings.Join(desc, " ∧ "), got, want)
